@@ -17,7 +17,79 @@ import (
 // PRNG states yields two structurally equal, pointer-disjoint plans: one goes to the vault (which may
 // overwrite it), the other is the harness's own record of what was written.
 
-var oddStrings = []string{"", " ", "x", "quo\"te", "uni-λ-✓", "two\nlines", "'; DROP TABLE plans; --", "tab\there", "null"}
+var oddStrings = []string{"", " ", "x", "quo\"te", "uni-λ-✓", "two\nlines", "'; DROP TABLE plans; --", "tab\there", "null",
+	"nul\x00inside", "\ufffd", "a\ufffdb", "\U0001F600 astral"} // incl. an embedded NUL and U+FFFD itself: legitimate text
+
+// InvalidUTF8 are strings that are not valid UTF-8: lone continuation byte, truncated sequences, 0xff / 0xfe,
+// an overlong encoding, a surrogate half.
+var InvalidUTF8 = []string{"\x80", "a\x80b", "\xc3", "x\xe2\x82", "\xff", "ok\xfe", "\xc0\xaf", "\xed\xa0\x80", "\xf0\x9f\x98"}
+
+// Taint puts ONE string that is not valid UTF-8 somewhere into the stored-form plan p: a name or description
+// at some level, a string field of a request, of an attempt's response, or an error message at some depth.
+// It returns where. (The JSON codec refuses such strings; TEXT columns store them byte for byte.)
+func Taint(r *core.Rand, p *workflow.Plan) string {
+	bad := InvalidUTF8[r.Intn(len(InvalidUTF8))]
+	o := ObjectsOf(p)
+	a := o.Actions[r.Intn(len(o.Actions))]
+	switch r.Intn(6) {
+	case 0:
+		switch r.Intn(4) {
+		case 0:
+			p.Name = bad
+		case 1:
+			p.Blocks[0].Descr = bad
+		case 2:
+			if len(o.Seqs) > 0 {
+				o.Seqs[0].Name = bad
+				break
+			}
+			fallthrough
+		default:
+			a.Descr = bad
+		}
+		return "name/descr"
+	case 1, 2:
+		TaintReq(a, bad)
+		return "request"
+	case 3:
+		a.Attempts = append(a.Attempts, &workflow.Attempt{Resp: TaintedResp(a.Plugin, bad), Start: time.Unix(7, 7)})
+		return "attempt response"
+	default:
+		e := &plugins.Error{Code: 1, Message: "outer"}
+		cur := e
+		for d := r.Intn(4); d > 0; d-- {
+			cur.Wrapped = &plugins.Error{Code: 2, Message: "wrapped"}
+			cur = cur.Wrapped
+		}
+		cur.Message = "msg " + bad
+		a.Attempts = append(a.Attempts, &workflow.Attempt{Err: e, Start: time.Unix(8, 8)})
+		return "error message"
+	}
+}
+
+// TaintReq gives the action a request its plugin's ValidateReq accepts whose Path is the string bad.
+func TaintReq(a *workflow.Action, bad string) {
+	switch a.Plugin {
+	case hplug.AltName:
+		a.Req = hplug.AltReq{Nonce: "n", Path: bad, N: 1}
+	case AnyActionName, AnyCheckName:
+		a.Req = AnyReq{Nonce: "n", Path: "p", X: []any{"fine", bad}}
+	default:
+		a.Req = hplug.Req{Nonce: "n", Path: bad, Tags: []string{"t"}}
+	}
+}
+
+// TaintedResp is a response of the plugin's response type with the string bad inside.
+func TaintedResp(plugin, bad string) any {
+	switch plugin {
+	case hplug.AltName:
+		return &hplug.AltResp{Echo: bad}
+	case AnyActionName, AnyCheckName:
+		return AnyResp{Path: "p", V: map[string]any{"k": bad}}
+	default:
+		return hplug.Resp{Path: "p", Items: []string{"fine", bad}}
+	}
+}
 
 // text that looks like a number (or another literal) to a column with numeric affinity or to a lenient
 // decoder: it must come back byte for byte
